@@ -1,6 +1,7 @@
 package main
 
 import (
+	"sync"
 	"fmt"
 	"os"
 	"go/ast"
@@ -97,6 +98,13 @@ type Oblig struct {
 	OwnProps bool  // Props was given explicitly for this obligation
 	Quick    bool  // expected to fail (known finding listed): short first attempt
 	ExtraAs []string
+	Ctx     []blkCtx // where it was generated: innermost frame first (see sliceFacts)
+}
+
+// blkCtx: a block of one activation (frame) of a function.
+type blkCtx struct {
+	fr *frame
+	b  *ssa.BasicBlock
 }
 
 type deferred struct {
@@ -107,6 +115,12 @@ type deferred struct {
 }
 
 type FnCtx struct {
+	preds       map[string]*predInfo
+	curFrame    *frame
+	curBlock    *ssa.BasicBlock
+	reachBlk    map[string]blkCtx // reach_bN!k -> the first block that carries this reachability condition
+	factSeen    map[string]bool
+	ctxErrCalls []ctxErrCall
 	e           *Engine
 	fn          *ssa.Function
 	c           *FuncContract
@@ -220,7 +234,17 @@ func (fc *FnCtx) declare(name, sortName string) {
 	fc.decls = append(fc.decls, fmt.Sprintf("(declare-const %s %s)", name, sortName))
 }
 
-func (fc *FnCtx) fact(s string) { fc.facts = append(fc.facts, s) }
+func (fc *FnCtx) fact(s string) {
+	// a fact already recorded is in force for everything that follows: no need to repeat it
+	if fc.factSeen == nil {
+		fc.factSeen = map[string]bool{}
+	}
+	if fc.factSeen[s] {
+		return
+	}
+	fc.factSeen[s] = true
+	fc.facts = append(fc.facts, s)
+}
 func (fc *FnCtx) factIf(guard, s string) {
 	if guard == "true" || guard == "" {
 		fc.facts = append(fc.facts, s)
@@ -281,6 +305,9 @@ func (fc *FnCtx) oblig(kind, name string, goal string, reach string, pos token.P
 		props = fc.props
 	}
 	o := &Oblig{Name: fc.short + "/" + full, Kind: kind, Props: props, Goal: goal, Reach: reach, NFacts: len(fc.facts), Fc: fc, Inputs: fc.inputs, OwnProps: own}
+	for f, b := fc.curFrame, fc.curBlock; f != nil && b != nil; f, b = f.parent, f.atBlock {
+		o.Ctx = append(o.Ctx, blkCtx{f, b})
+	}
 	if pos.IsValid() {
 		o.Pos = fc.e.fset.Position(pos)
 	}
@@ -342,13 +369,13 @@ func (fc *FnCtx) assumeAllocatedFrom(st *State, r Term, arrTerm Term) {
 	al, ok := fc.allocAt[arrTerm.S]
 	if !ok {
 		if strings.HasSuffix(arrTerm.S, "@0") {
-			al = fc.heapGet(&State{heap: map[string]Term{}}, "Alloc", arr(SInt, SBool)).S
+			al = fc.heapGet(&State{heap: map[string]Term{}}, "Alloc", SAlloc).S
 		} else {
 			fc.assumeAllocated(st, r)
 			return
 		}
 	}
-	fc.fact(fmt.Sprintf("(or (= %s 0) (and (> %s 0) (select %s %s)))", r.S, r.S, al, r.S))
+	fc.fact(fmt.Sprintf("(or (= %s 0) (and (> %s 0) %s))", r.S, r.S, allocd(al, r.S)))
 }
 
 func fieldArrName(structT types.Type, field string) string {
@@ -397,15 +424,47 @@ func (fc *FnCtx) mapArrs(mt *types.Map, region string) (dom, val, ks, vs string)
 // newRef allocates a fresh reference.
 func (fc *FnCtx) newRef(st *State, what string) Term {
 	r := fc.fresh("new_"+what, SInt)
-	al := fc.heapGet(st, "Alloc", arr(SInt, SBool))
-	fc.fact(fmt.Sprintf("(and (> %s 0) (not (select %s %s)))", r.S, al.S, r.S))
-	fc.heapSet(st, "Alloc", Term{store(al.S, r.S, "true"), al.Sort})
+	al := fc.heapGet(st, "Alloc", SAlloc)
+	fc.fact(fmt.Sprintf("(and (> %s 0) (not %s))", r.S, allocd(al.S, r.S)))
+	if allocWatermark {
+		fc.heapSet(st, "Alloc", Term{"(+ " + r.S + " 1)", al.Sort})
+	} else {
+		fc.heapSet(st, "Alloc", Term{store(al.S, r.S, "true"), al.Sort})
+	}
 	return r
 }
 
+// The allocation state is a watermark: the references below it are the allocated ones, a new object
+// takes the watermark itself (or anything above it) and moves it past itself. Go programs cannot
+// observe addresses beyond equality, so every execution is isomorphic to one that allocates this way;
+// "allocated before" becomes a comparison of integers and the watermark only grows - no quantified
+// monotonicity axioms are needed.
+var allocWatermark = os.Getenv("GOWP_ALLOC") == "watermark"
+var SAlloc = func() string {
+	if allocWatermark {
+		return SInt
+	}
+	return arr(SInt, SBool)
+}()
+
+func allocd(al, r string) string {
+	if allocWatermark {
+		return "(< " + r + " " + al + ")"
+	}
+	return "(select " + al + " " + r + ")"
+}
+
+// allocMono: everything allocated in state old is allocated in state nw.
+func allocMono(old, nw string) string {
+	if allocWatermark {
+		return "(<= " + old + " " + nw + ")"
+	}
+	return fmt.Sprintf("(forall ((r Int)) (! (=> (select %s r) (select %s r)) :pattern ((select %s r))))", old, nw, nw)
+}
+
 func (fc *FnCtx) assumeAllocated(st *State, r Term) {
-	al := fc.heapGet(st, "Alloc", arr(SInt, SBool))
-	fc.fact(fmt.Sprintf("(or (= %s 0) (and (> %s 0) (select %s %s)))", r.S, r.S, al.S, r.S))
+	al := fc.heapGet(st, "Alloc", SAlloc)
+	fc.fact(fmt.Sprintf("(or (= %s 0) (and (> %s 0) %s))", r.S, r.S, allocd(al.S, r.S)))
 }
 
 // ---------------------------------------------------------------- frames
@@ -456,6 +515,8 @@ type frame struct {
 	priv      []privCell       // cells of locals that only this function writes (see privateCell)
 	callBindings []Val         // captured cells of the closure being called (consumed by applyContract)
 	pendingGo    []*ssa.Go     // fork/join model: goroutines that run at the next WaitGroup.Wait
+	fwd          map[*ssa.BasicBlock]map[*ssa.BasicBlock]bool
+	atBlock      *ssa.BasicBlock // inlined frames: the caller's block when the body was run
 }
 
 // privCell: the heap cell of a local variable of the function under verification whose address is
@@ -660,6 +721,70 @@ func (fr *frame) isBackEdge(from, to *ssa.BasicBlock) bool {
 	return to.Dominates(from)
 }
 
+// fwdReaches: is there a path from x to b that takes no back edge (x == b included)? This is the
+// path relation of the verification condition, in which every loop is cut at its head.
+func (fr *frame) fwdReaches(x, b *ssa.BasicBlock) bool {
+	if fr.fwd == nil {
+		fr.fwd = map[*ssa.BasicBlock]map[*ssa.BasicBlock]bool{}
+	}
+	m := fr.fwd[x]
+	if m == nil {
+		m = map[*ssa.BasicBlock]bool{}
+		var dfs func(c *ssa.BasicBlock)
+		dfs = func(c *ssa.BasicBlock) {
+			if m[c] {
+				return
+			}
+			m[c] = true
+			for _, s := range c.Succs {
+				if !fr.isBackEdge(c, s) {
+					dfs(s)
+				}
+			}
+		}
+		dfs(x)
+		fr.fwd[x] = m
+	}
+	return m[b]
+}
+
+// sliceFacts: the facts an obligation is checked under, without those that are guarded by the
+// reachability of a block which no path to the obligation passes through (the facts of the other
+// branches: postconditions of calls made there, and so on). Leaving an assumption out can only
+// make an obligation harder to prove, never easier; it keeps the queries small.
+var sliceMu sync.Mutex
+
+func (o *Oblig) sliceFacts(facts []string) []string {
+	fc := o.Fc
+	if len(o.Ctx) == 0 || fc.reachBlk == nil || os.Getenv("GOWP_NOSLICE") != "" {
+		return facts
+	}
+	sliceMu.Lock() // (obligations are written out from several goroutines; fwdReaches fills a cache)
+	defer sliceMu.Unlock()
+	out := make([]string, 0, len(facts))
+	for _, f := range facts {
+		if strings.HasPrefix(f, "(=> reach_b") {
+			g := f[4:]
+			if i := strings.IndexByte(g, ' '); i > 0 {
+				if x, ok := fc.reachBlk[g[:i]]; ok {
+					drop := false
+					for _, c := range o.Ctx {
+						if c.fr == x.fr {
+							drop = !x.fr.fwdReaches(x.b, c.b)
+							break
+						}
+					}
+					if drop {
+						continue
+					}
+				}
+			}
+		}
+		out = append(out, f)
+	}
+	return out
+}
+
 // run executes the body of fr.fn from the given start state.
 func (fr *frame) run(start *State, startReach string) {
 	fn := fr.fn
@@ -703,6 +828,15 @@ func (fr *frame) run(start *State, startReach string) {
 		} else {
 			fr.reach[b] = reach
 		}
+		if strings.HasPrefix(fr.reach[b], "reach_b") {
+			if fr.fc.reachBlk == nil {
+				fr.fc.reachBlk = map[string]blkCtx{}
+			}
+			if _, ok := fr.fc.reachBlk[fr.reach[b]]; !ok {
+				fr.fc.reachBlk[fr.reach[b]] = blkCtx{fr, b}
+			}
+		}
+		fr.fc.curFrame, fr.fc.curBlock = fr, b
 		if li := fr.loops[b]; li != nil {
 			st = fr.loopHeader(li, b, st)
 		} else {
@@ -832,6 +966,7 @@ func (fr *frame) execBlock(b *ssa.BasicBlock, st *State) {
 	fr.curState = st
 	reach := fr.reach[b]
 	for _, in := range b.Instrs {
+		fc.curFrame, fc.curBlock = fr, b // (an inlined callee has moved them)
 		switch i := in.(type) {
 		case *ssa.Phi, *ssa.DebugRef:
 			continue
